@@ -197,15 +197,18 @@ def judgeUser (c : Config) (own : Option Str) (observed : Str) : List String :=
     | none, some _ => ["ruser:cmdline:not-used"]
     | none, none => ["ruser:default:not-used"]
 
-/-- the number of commands that were seen running at the same time, `wanted` = as many targets as the fanout in
-    force allows (the generator gives more targets than that) -/
-def judgeFanoutUsed (c : Config) (peak : Int) : List String :=
+/-- the number of commands that were seen running at the same time must be what the fanout in force allows:
+    the fanout itself when there are more targets than that (`targets = none`: the generator made sure), else the
+    number of targets — whatever the resource limits of the process are (a fanout silently lowered because few file
+    descriptors are available is not "the value given") -/
+def judgeFanoutUsed (c : Config) (peak : Int) (targets : Option Int := none) : List String :=
   let inForce : Option Int := match c.fanout.chosen with
     | some (_, t) => CInt.denotes t
     | none => some c.dfltFanout
+  let wanted (f : Int) : Int := match targets with | some n => min f n | none => f
   match inForce, c.fanout.chosen with
-  | some f, some (src, _) => if peak = f then [] else [s!"fanout:{src.name}:not-used"]
-  | some f, none => if peak = f then [] else ["fanout:default:not-used"]
+  | some f, some (src, _) => if peak = wanted f then [] else [s!"fanout:{src.name}:not-used"]
+  | some f, none => if peak = wanted f then [] else ["fanout:default:not-used"]
   | none, _ => []
 
 /-- a command that runs longer than `short` seconds and shorter than `long` seconds: was it cut short? -/
